@@ -39,6 +39,62 @@ Theorem C03_memo_recursive_transparent_callable : forall (f : list Z -> Z) (stor
   dyn_arr_of (evolve1d_dynamic (pure1 f) store pred (PBool false) r fuel p0 tt hist).
 Proof. intros f store r hist P pred fuel p0 H. exact (proj1 (memo_recursive_dynamic f store r hist H P pred fuel p0)). Qed.
 
+(* ------------------------------------------------------------------ stateful rules that answer by contents *)
+(* "any rule whose result depends only on the neighbourhood contents": ANY state machine `rule` (a
+   counter, a logger, ...) whose returned value is f of the contents, whatever its state, the cell
+   index and the step number (`answers rule f := forall s n c t, snd (rule s n c t) = f n`).  The
+   arrays are equal; nothing is said about the final rule state, which legitimately differs (the
+   memoised runs enter the rule less often). *)
+Theorem C03_memo_true_transparent_answering : forall (St : Type) (rule : rule1 St) (f : list Z -> Z) (store : Z -> Z)
+    (r : nat) (s0 : St) (hist : list (list Z)) (T : nat),
+  (forall s n c t, snd (rule s n c t) = f n) -> 1 <= r <= length (last hist []) ->
+  arr_of (evolve1d_fixed rule store (PBool true) r s0 hist T) =
+  arr_of (evolve1d_fixed rule store (PBool false) r s0 hist T).
+Proof. intros St rule f store r s0 hist T Ha H. exact (proj1 (memo_true_fixed_ans St rule f store r hist Ha H s0 T)). Qed.
+
+Theorem C03_memo_true_transparent_answering_callable : forall (St : Type) (rule : rule1 St) (f : list Z -> Z) (store : Z -> Z)
+    (r : nat) (s0 : St) (hist : list (list Z)) (P : Type) (pred : P -> list (list Z) -> nat -> P * bool) (fuel : nat) (p0 : P),
+  (forall s n c t, snd (rule s n c t) = f n) -> 1 <= r <= length (last hist []) ->
+  dyn_arr_of (evolve1d_dynamic rule store pred (PBool true) r fuel p0 s0 hist) =
+  dyn_arr_of (evolve1d_dynamic rule store pred (PBool false) r fuel p0 s0 hist).
+Proof.
+  intros St rule f store r s0 hist P pred fuel p0 Ha H.
+  exact (proj1 (memo_true_dynamic_ans St rule f store r hist Ha H P pred fuel p0 s0)).
+Qed.
+
+Theorem C03_memo_recursive_transparent_answering : forall (St : Type) (rule : rule1 St) (f : list Z -> Z) (store : Z -> Z)
+    (r : nat) (s0 : St) (hist : list (list Z)) (T : nat),
+  (forall s n c t, snd (rule s n c t) = f n) -> 1 <= r <= length (last hist []) ->
+  arr_of (evolve1d_fixed rule store (PStr StrLit.recursive_lit) r s0 hist T) =
+  arr_of (evolve1d_fixed rule store (PBool false) r s0 hist T).
+Proof. intros St rule f store r s0 hist T Ha H. exact (proj1 (memo_recursive_fixed_ans St rule f store r hist Ha H s0 T)). Qed.
+
+Theorem C03_memo_recursive_transparent_answering_callable : forall (St : Type) (rule : rule1 St) (f : list Z -> Z)
+    (store : Z -> Z) (r : nat) (s0 : St) (hist : list (list Z)) (P : Type) (pred : P -> list (list Z) -> nat -> P * bool)
+    (fuel : nat) (p0 : P),
+  (forall s n c t, snd (rule s n c t) = f n) -> 1 <= r <= length (last hist []) ->
+  dyn_arr_of (evolve1d_dynamic rule store pred (PStr StrLit.recursive_lit) r fuel p0 s0 hist) =
+  dyn_arr_of (evolve1d_dynamic rule store pred (PBool false) r fuel p0 s0 hist).
+Proof.
+  intros St rule f store r s0 hist P pred fuel p0 Ha H.
+  exact (proj1 (memo_recursive_dynamic_ans St rule f store r hist Ha H P pred fuel p0 s0)).
+Qed.
+
+(* non-vacuity: a rule that counts its own invocations (state = nat) and answers n0+n1+n2 mod 2: the
+   hypothesis holds, the arrays agree, the final counters differ (18 against 2) *)
+Example C03_nonvacuous_answering :
+  let rule : rule1 nat := fun i n _ _ => (S i, (lin_dot [1; 1; 1] n mod 2)%Z) in
+  let h1 := [[0; 1; 0; 1; 0; 1]]%Z in
+  (forall s n c t, snd (rule s n c t) = (lin_dot [1; 1; 1] n mod 2)%Z) /\
+  arr_of (evolve1d_fixed rule store_id (PBool true) 1 0 h1 4) = arr_of (evolve1d_fixed rule store_id (PBool false) 1 0 h1 4) /\
+  (exists a lg, evolve1d_fixed rule store_id (PBool false) 1 0 h1 4 = Ok (18, lg, a)) /\
+  (exists a lg, evolve1d_fixed rule store_id (PBool true) 1 0 h1 4 = Ok (2, lg, a)) /\
+  (exists a lg, evolve1d_fixed rule store_id (PStr StrLit.recursive_lit) 1 0 h1 4 = Ok (2, lg, a)).
+Proof.
+  split; [intros; reflexivity|]. split; [vm_compute; reflexivity|].
+  split; [eexists; eexists; vm_compute; reflexivity|]. split; eexists; eexists; vm_compute; reflexivity.
+Qed.
+
 (* the one-step core (lifted from the design spike): from ANY cache whose entries (key, vals) satisfy
    length key = length vals + 2r and vals = map (store o f) (windows (2r+1) key), one step of the
    recursive engine writes exactly the plain next row and leaves such a cache (r <= N suffices) *)
@@ -54,7 +110,7 @@ Theorem C03_recursive_step_any_sound_cache : forall (f : list Z -> Z) (store : Z
      length k = length v + 2 * r /\ v = map (fun n => store (f n)) (windows (2 * r + 1) k)).
 Proof.
   intros f store r cells t cache lg HN Hr HI HD HK.
-  destruct (step_recursive_ok f store r cells t (tt, cache, lg) HN Hr HI (conj HD HK)) as (H1 & H2 & _).
+  destruct (step_recursive_ok unit (pure1 f) f store r (pure1_answers f) cells t (tt, cache, lg) HN Hr HI (conj HD HK)) as (H1 & H2 & _).
   split; [exact H1|exact H2].
 Qed.
 
@@ -121,6 +177,10 @@ Print Assumptions C03_memo_true_transparent.
 Print Assumptions C03_memo_true_transparent_callable.
 Print Assumptions C03_memo_recursive_transparent.
 Print Assumptions C03_memo_recursive_transparent_callable.
+Print Assumptions C03_memo_true_transparent_answering.
+Print Assumptions C03_memo_true_transparent_answering_callable.
+Print Assumptions C03_memo_recursive_transparent_answering.
+Print Assumptions C03_memo_recursive_transparent_answering_callable.
 Print Assumptions C03_recursive_step_any_sound_cache.
 Print Assumptions C03_plain_mode_is_C01_engine.
 Print Assumptions C03_dispatch_by_value.
